@@ -9,14 +9,15 @@ import CatVerif.Proofs.Steps.ReadChar
 namespace Cat
 open St
 
+
+/-- every reading state reports OK exactly when its guarded read got nothing; the read itself (`read_cmd_char`: "nothing"
+means `io->read` returned 0, and nothing else) is the function re-recognised in the source on every run (translator item T14) -/
+theorem C15_read_generated : readCmdChar = Gen.read_cmd_char := readCmdChar_generated
+
 /-- the counters this property's theorems keep as unbounded natural numbers (`unsolicited_cmd_buffer_items_count`) are declared
 `size_t` in `cat.h` — 64 bits on the target, so they cannot wrap on any buffer, table or line that exists; the widths
 are read from the struct declarations on every run (translator item T21) -/
 theorem C15_counters_unbounded :
     Gen.width_uns_unsolicited_cmd_buffer_items_count = 64 := by decide
-
-/-- every reading state reports OK exactly when its guarded read got nothing; the read itself (`read_cmd_char`: "nothing"
-means `io->read` returned 0, and nothing else) is the function re-recognised in the source on every run (translator item T14) -/
-theorem C15_read_generated : readCmdChar = Gen.read_cmd_char := readCmdChar_generated
 
 end Cat
